@@ -44,9 +44,11 @@ def check(ctx):
     quiet = {}
     th = threading.Thread(target=lambda: quiet.update(long_silence(ctx, thorough)), daemon=True)
     th.start()
-    end_to_end(ctx, thorough)
-    end_to_end(ctx, thorough, bind="127.0.0.1")
-    th.join(timeout=120)
+    try:
+        end_to_end(ctx, thorough)
+        end_to_end(ctx, thorough, bind="127.0.0.1")
+    finally:
+        th.join(timeout=120)      # (its collector is stopped by the stage itself)
     if "error" in quiet or not quiet:
         raise vlib.Infra("long-silence stage: %s" % quiet.get("error", "did not finish"))
     for case in quiet["cases"]:
